@@ -1084,13 +1084,54 @@ func (c *BufferConverter) From(obj interface{}) (Object, error) {
 type DynamicConverter struct{}
 
 func (c *DynamicConverter) To(obj Object) (interface{}, error) {
+	// A function, module, ... has no Go value: it is refused rather than
+	// turned into nil without a word, also as an element of a list or map
+	if culprit := withoutGoValue(obj, nil); culprit != nil {
+		return nil, errz.TypeErrorf("type error: %s has no Go value", culprit.Type())
+	}
 	value := obj.Interface()
 	if value == nil && obj != Nil {
-		// A function, module, iterator, ... has no Go value: it is refused
-		// rather than turned into nil without a word
 		return nil, errz.TypeErrorf("type error: %s has no Go value", obj.Type())
 	}
 	return value, nil
+}
+
+// withoutGoValue returns the object, or the element of a list or map in it,
+// that is of a type whose Interface method has nothing to return.
+func withoutGoValue(obj Object, seen map[Object]bool) Object {
+	switch obj := obj.(type) {
+	case *List:
+		if seen[obj] {
+			return nil
+		}
+		if seen == nil {
+			seen = map[Object]bool{}
+		}
+		seen[obj] = true
+		for _, item := range obj.items {
+			if culprit := withoutGoValue(item, seen); culprit != nil {
+				return culprit
+			}
+		}
+		return nil
+	case *Map:
+		if seen[obj] {
+			return nil
+		}
+		if seen == nil {
+			seen = map[Object]bool{}
+		}
+		seen[obj] = true
+		for _, key := range obj.SortedKeys() {
+			if culprit := withoutGoValue(obj.items[key], seen); culprit != nil {
+				return culprit
+			}
+		}
+		return nil
+	case *Function, *Module, *DynamicAttr, *ChanIter:
+		return obj
+	}
+	return nil
 }
 
 func (c *DynamicConverter) From(obj interface{}) (Object, error) {
